@@ -1174,7 +1174,7 @@ var giPositions = []giPos{
 	}},
 	{"w.ptr", "zvwrap", []string{"zvleaf"}, "ptr", giOne("ptr")},
 	{"w.any", "zvwrap", giAnyTypes, "iface", giOne("any")},
-	{"w.node", "zvwrap", []string{"zvnode"}, "val", giOne("node")},
+	{"w.node", "zvwrap", []string{"zvnode"}, "solo", giOne("node")},
 	{"w.next", "zvwrap", []string{"zvnode"}, "ptr", giOne("next")},
 	{"p.a", "zvpair", []string{"zvleaf"}, "ptr", giOne("a")},
 	{"p.b", "zvpair", giAnyTypes, "iface", giOne("b")},
@@ -1331,7 +1331,9 @@ func (gg *giGen) systematic(thorough bool) {
 	// E4: sharing -- one record referenced from two (three) positions of the same root
 	for i, p := range giPositions {
 		for j, q := range giPositions {
-			if p.root != q.root || j < i {
+			if p.root != q.root || j < i || p.kind == "solo" || q.kind == "solo" {
+				// solo: the embedded struct given as a whole; combining it with its own
+				// promoted fields is ambiguous (which write wins) and outside the property
 				continue
 			}
 			for _, ct := range p.child {
@@ -1350,7 +1352,7 @@ func (gg *giGen) systematic(thorough bool) {
 				gg.add("s2", b.graph(b.rec(p.root, fs...)), "shared: "+p.name+" + "+q.name)
 				// a third reference
 				for k, r := range giPositions {
-					if r.root != p.root || k <= j || !giContains(r.child, ct) {
+					if r.root != p.root || k <= j || !giContains(r.child, ct) || r.kind == "solo" {
 						continue
 					}
 					if !thorough && (i+j+k)%4 != 0 {
